@@ -377,3 +377,60 @@ class SchedTime:
         import time as _t
 
         return getattr(_t, name)
+
+
+class FsYield:
+    """Filesystem calls as scheduling points: while active, every os-level call that creates, removes, renames or looks at a
+    path (stat, mkdir, symlink, unlink, utime, chmod, open ...) made by the thread that holds the baton first hands the baton
+    to the scheduler.  A check-then-act sequence on the real scratch filesystem (exists() ... mkdir()) can then be cut by
+    another worker exactly as the kernel would allow it, and the cut is a recorded, replayable decision."""
+
+    NAMES = ("stat", "lstat", "mkdir", "rmdir", "symlink", "unlink", "remove", "rename", "replace", "utime", "chmod", "readlink", "open", "scandir", "listdir")
+
+    def __init__(self, sched, root):
+        self.sched = sched
+        self.root = _os.path.realpath(root)
+        self.saved = {}
+        self.count = 0
+
+    def _wrap(self, name, real):
+        sched = self.sched
+        root = self.root
+
+        def wrapper(path, *a, **kw):
+            try:
+                p = _os.fspath(path)
+                if isinstance(p, bytes):
+                    p = p.decode("utf-8", "surrogateescape")
+                inside = isinstance(p, str) and (p.startswith(root) or not p.startswith("/"))
+            except TypeError:
+                inside = False
+            if inside and not sched.poison and self._holds_baton():
+                self.count += 1
+                sched.yield_(("fs", name))
+            return real(path, *a, **kw)
+
+        wrapper.__name__ = name
+        return wrapper
+
+    def _holds_baton(self):
+        t = self.sched.threads[self.sched.current]
+        cur = threading.current_thread()
+        if t.tid == 0:
+            return cur is threading.main_thread() or not cur.name.startswith("sim-")
+        return t.real is cur
+
+    def __enter__(self):
+        for n in self.NAMES:
+            real = getattr(_os, n, None)
+            if real is None:
+                continue
+            self.saved[n] = real
+            setattr(_os, n, self._wrap(n, real))
+        return self
+
+    def __exit__(self, *exc):
+        for n, real in self.saved.items():
+            setattr(_os, n, real)
+        self.saved = {}
+        return False
